@@ -26,6 +26,30 @@ PROPS = {
     },
 }
 
+PROPS["C16"] = {
+    "kani": [],
+    "verus": ["ioqueue"],
+    "explanation": "IOQueue under a representation invariant (shape of offset + running length) and an abstract view "
+                   "bytes() = flatten(chunks).skip(offset); every public operation and the Write/Read/BufRead methods "
+                   "(extracted verbatim from src/common.rs on each run) proved against it for queues, chunks and payloads of any size. "
+                   "Because each operation is proved assuming only wf(), every interleaving of operations follows by induction.",
+    "assumptions": [
+        "tty side (UnixTerminal::poll select loop, rustix write, tee file, guard_io) is outside the contracts: it is assumed to call "
+        "consume_with with a closure that returns k <= slice.len() (the write(2) contract) and to append only through IOQueue::write",
+        "`frame = flush-delimited chunk` is a convention of run_render; clear_but_last is proved to keep exactly the first chunk "
+        "(the one whose transmission may have started) and the read offset",
+        "IOQueue::write precondition: length + buf.len() <= usize::MAX (physical memory bound)",
+        "std specifications assumed: VecDeque::{is_empty,front,back_mut}, <Vec<u8> as io::Write>::write, VecDeque::drain(1..) as 'keep first', std::cmp::min",
+        "Verus gives no counterexample and the VecDeque<Vec<u8>> queue is intractable for CBMC (2 probes > 6 min): failed obligations are reported with no-failing-input-found",
+    ],
+    "trusted_base": COMMON_TRUSTED,
+    "technique": "Verus: representation invariant + abstract byte-sequence view on the extracted IOQueue methods (unbounded)",
+    "level_text": "Deductive proof (Verus/Z3) of len() == |bytes()|, write appends, consume/consume_with/read drop exactly the first k bytes, "
+                  "flush keeps bytes, clear_but_last keeps exactly the first chunk, for all queue states and all operation histories (by the invariant). "
+                  "The tty write loop in unix.rs is assumed, not proved.",
+    "level_note": "Trusts Verus/Z3, the listed std specifications and the extractor's logged normalisations; unix.rs poll loop, OS and frame convention assumed.",
+}
+
 NOT_APPLICABLE = {
     "C01": "monolithic TerminalRenderer::frame over trait objects/HashMap/Arc; the property needs a terminal screen model as ghost state over whole histories; no callee carries it",
     "C03": "relational over read schedules of a run-time-built DFA + SmallVec + boxed matchers; tokeniser half quantifies over NFA::compile; outside Verus and intractable for CBMC",
@@ -37,5 +61,5 @@ NOT_APPLICABLE = {
     # claimed later as their checks are built; until then honestly not claimed
     "C02": "check not built yet", "C04": "check not built yet", "C05": "check not built yet", "C06": "check not built yet",
     "C07": "check not built yet", "C09": "check not built yet", "C10": "check not built yet", "C11": "check not built yet",
-    "C13": "check not built yet", "C14": "check not built yet", "C16": "check not built yet", "C20": "check not built yet",
+    "C13": "check not built yet", "C14": "check not built yet", "C20": "check not built yet",
 }
